@@ -1,0 +1,14 @@
+//go:build verif
+
+package kmip
+
+/* This Source Code Form is subject to the terms of the Mozilla Public
+ * License, v. 2.0. If a copy of the MPL was not distributed with this
+ * file, You can obtain one at http://mozilla.org/MPL/2.0/. */
+
+// VerifDiscoverVersions exposes the built-in Discover Versions handler to the verification
+// harness (built only with -tags verif), so that the value it returns - not just its encoding -
+// can be inspected for aliasing with the server's configuration.
+func (s *Server) VerifDiscoverVersions(req *RequestContext, item *RequestBatchItem) (interface{}, error) {
+	return s.handleDiscoverVersions(req, item)
+}
